@@ -8,6 +8,18 @@ import sys
 COQ = os.path.join(os.path.dirname(os.path.dirname(os.path.abspath(__file__))), "coq")
 
 SPECS = {
+    "C07": {
+        "title": "C07 - Random walks only visit real vertices along real edges with honest step counts.",
+        "doc": "For ALL values of the random draws (oracle arguments: generator choices, torch.randperm). reach [start] k t = t is the end of a walk of exactly k edges from start.\n"
+               "    The nbt theorem needs a well-formed permutation oracle (entries in range) and, at history depth 0, at least one generator (every definition has one).",
+        "imports": "Base Tensor Graph GraphProofs GraphImpl BfsStep Walks WalksProofs",
+        "thms": [
+            ("C07_walks_classic_spec", "walks_classic_spec", "classic mode: width*length rows, y counts the steps 0..length-1, starts with the start state, consecutive states joined by an edge, honest step counts"),
+            ("C07_walks_nbt_spec", "walks_nbt_spec", "nbt mode, EVERY history depth including the default 0: starts with the start state, every x[i] is the end of a walk of exactly y[i] edges"),
+            ("C07_walks_bfs_spec", "walks_bfs_spec", "bfs mode: starts with the start state, all returned states distinct, honest step counts"),
+            ("C07_walks_bfs_exhaustive", "walks_bfs_exhaustive", "bfs mode, width >= largest layer and length > eccentricity: exactly all vertices with their true distances"),
+        ],
+    },
     "C06": {
         "title": "C06 - Beam search never reports a path that does not exist, and is exact when unpruned.",
         "doc": "For EVERY selection oracle (the unstable argsort), score function, beam width and step budget. reach [start] k c = a walk of exactly k edges from start to c exists.\n"
